@@ -259,6 +259,13 @@ class HCtxPauseRaises(HCtx):
             raise _cur.w.err(HErr, ("pause", self.rec.cid))
 
 
+class HCtxPauseAlwaysRaises(HCtx):
+    # every pause raises, also the one issued by __exit__
+    def pause(self):
+        _cur.w.ctx_event(self.rec, "p")
+        raise _cur.w.err(HErr, ("pause", self.rec.cid))
+
+
 class HCtxResumeRaises(HCtx):
     # scheduler-driven resumes (not the one in __enter__) raise
     def resume(self):
@@ -736,6 +743,8 @@ class World(object):
             rec.obj = HCtxPauseRaises(rec)
         elif kind == "Xr":
             rec.obj = HCtxResumeRaises(rec)
+        elif kind == "Xq":
+            rec.obj = HCtxPauseAlwaysRaises(rec)
         elif kind in ("S0", "S1"):
             rec.obj = SpySVOverride(self.sv[int(kind[1])], ("ov", st[1]))
             rec.obj.rec = rec
